@@ -1293,6 +1293,8 @@ pub fn run_mem_case(rec: &mut Recorder, rng: &mut Rng, nops: usize, lines: Optio
     let mut tab: Vec<(u64, u64, u64)> = vec![];
     let mut addinfo: Vec<(u64, u64)> = vec![];
     let mut ever: u64 = 0;
+    // successful seals per channel key (the key lives in the channel, not in the context)
+    let mut key_count: std::collections::BTreeMap<u64, u64> = Default::default();
     let pt = b"verif-afc-mem";
     let replay: Option<Vec<String>> = lines.map(|l| l.1.to_vec());
     let total = replay.as_ref().map_or(nops, |l| l.len());
@@ -1402,7 +1404,7 @@ pub fn run_mem_case(rec: &mut Recorder, rng: &mut Rng, nops: usize, lines: Optio
                 let is_seal = *kind == "s";
                 let live_for_x = ctxs.iter().any(|c| c.id == x && (c.seal.is_some() || c.open.is_some()));
                 let r = if is_seal {
-                    cl.setup_seal_ctx(chan_id(x)).map(|c| MCtxReal { seal: Some(c), open: None, id: x, is_seal, next_seq: 0 })
+                    cl.setup_seal_ctx(chan_id(x)).map(|c| MCtxReal { seal: Some(c), open: None, id: x, is_seal, next_seq: *key_count.get(&x).unwrap_or(&0) })
                 } else {
                     cl.setup_open_ctx(chan_id(x)).map(|c| MCtxReal { seal: None, open: Some(c), id: x, is_seal, next_seq: 0 })
                 };
@@ -1452,9 +1454,14 @@ pub fn run_mem_case(rec: &mut Recorder, rng: &mut Rng, nops: usize, lines: Optio
                             if !ok {
                                 fails.push(("C40", format!("memory seal on channel {x}: ciphertext does not open under the channel key at seq {seq}")));
                             }
-                            if seq != c.next_seq {
-                                fails.push(("C40", format!("memory seal on channel {x}: successful seal number {} carries sequence number {seq}", c.next_seq)));
+                            let kc = key_count.entry(x).or_insert(0);
+                            if seq != c.next_seq || seq != *kc {
+                                fails.push((
+                                    "C40",
+                                    format!("memory seal on channel {x}: sequence number {seq}, but the context expects {} and {} seals were made under this channel key", c.next_seq, *kc),
+                                ));
                             }
+                            *kc = seq + 1;
                             c.next_seq = seq + 1;
                             format!("seq{seq}")
                         }
